@@ -8,9 +8,11 @@ C01 on the footnote grammar (PM stage 2b): pagination conserves lines *and footn
 * `footnotes_conserve` — footnote bodies: each exactly once, in call order, over the footnote areas of the pages;
   `footnotes_chain` — a page's footnotes are those postponed by the previous page followed by the calls on its own
   lines (so never before the call, and the first ones stay, the last ones are postponed);
-  `footnotes_shown` — and they are all rendered when the footnotes share one page name.
-  Hypotheses, all necessary (witnesses in `Witness/C01Foot.lean`): no `footnote-policy: block`
-  (`W: policy_block_crashes`), one page name among footnotes (`W: named_page_loses_footnote`), and the stage-1 ones.
+  `footnotes_shown` — and they are all rendered, in that order, in the footnote areas.
+  For every `footnote-policy` and any page names: the two hypotheses these theorems needed before the repairs
+  67bf2ca (`footnote-policy: block` on the first content of a page) and 8db5909 (footnote area broken between two
+  page names) are gone; the former witnesses are regression examples in `Witness/C01Foot.lean`. Only the stage-1
+  hypotheses (no fixed heights, orphans/widows ≥ 1) and well-formedness of the calls remain.
 -/
 import WpModel.Lemmas.FootChain
 
@@ -87,13 +89,12 @@ theorem pages_conserve (d : FDoc) (hN : NoFixedHeight d.root.erase) (hW : WellFo
 structure FootWF (d : FDoc) : Prop where
   noFixed : NoFixedHeight d.root.erase
   wellFormed : WellFormed d.root.erase
-  noBlock : NoBlockPolicy d.root          -- no `footnote-policy: block`
   callsOk : CallsOk d.root                -- calls on existing lines, written in line order
   uniqueParas : UniqueParaIds d.root
   uniqueFns : (boxFns d.root).Nodup       -- footnotes are distinct boxes (distinct ids)
 
 theorem FootWF.ok {d : FDoc} (h : FootWF d) : FootOk (callTable d.root) d.root :=
-  footOk_root d.root h.noFixed h.wellFormed h.noBlock h.callsOk h.uniqueParas
+  footOk_root d.root h.noFixed h.wellFormed h.callsOk h.uniqueParas
 
 private theorem start_inv (d : FDoc) (h : FootWF d) : PInv d none (boxFns d.root) [] := by
   have hall := tblFns_all (callTable d.root) d.root h.ok h.callsOk
@@ -132,30 +133,108 @@ theorem footnotes_chain (d : FDoc) (h : FootWF d) (fuel : Nat) (pages : List FPa
   exact makeAllPagesF_chain d h.ok fuel 0 none _ _ _ _ pages (fun _ _ => by simp [requestedSide, isBlank])
     (start_inv d h) hp
 
-/-- All footnotes of the document are called from boxes with the same used `page` name. -/
-def OnePageName (d : FDoc) : Prop := ∀ f ∈ boxFns d.root, ∀ g ∈ boxFns d.root, f.page = g.page
+private theorem pagesCur_append (a b : List FPage) : pagesCur (a ++ b) = pagesCur a ++ pagesCur b := by
+  induction a with
+  | nil => rfl
+  | cons p ps ih => simp [pagesCur, ih]
 
-/-- **Rendered**: with one page name among the footnotes, the footnote areas of the pages show, in page order,
-exactly the footnotes of the document in call order. -/
-theorem footnotes_shown (d : FDoc) (h : FootWF d) (h1 : OnePageName d) (fuel : Nat) (pages : List FPage)
+private theorem getLast?_append_ne {α : Type} (a b : List α) (h : b ≠ []) : (a ++ b).getLast? = b.getLast? := by
+  rw [List.getLast?_append]
+  cases hb : b.getLast? with
+  | none => rw [List.getLast?_eq_none_iff] at hb; exact absurd hb h
+  | some x => simp
+
+private theorem chain_suffix (tbl : List (Nat × Nat × Fn)) (pre rest : List FPage) (c : List Fn)
+    (h : PagesChain tbl c (pre ++ rest)) : ∃ c', PagesChain tbl c' rest := by
+  induction pre generalizing c with
+  | nil => exact ⟨c, h⟩
+  | cons p ps ih => exact ih p.reported h.2
+
+/-- Along a chain of pages whose last one postpones nothing, whatever a page takes (carried over or called on its
+lines) is placed in the footnote area of that page or of a later one. -/
+private theorem chain_placed (tbl : List (Nat × Nat × Fn)) : ∀ (ps : List FPage) (p : FPage) (c : List Fn),
+    PagesChain tbl c (p :: ps) → (∀ q, (p :: ps).getLast? = some q → q.reported = []) →
+    ∀ f ∈ c ++ tblFns tbl (fragLines p.page.root), f ∈ pagesCur (p :: ps) := by
+  intro ps
+  induction ps with
+  | nil =>
+    intro p c hc hl f hf
+    have hr : p.reported = [] := hl p (by simp)
+    rw [← hc.1, hr, List.append_nil] at hf
+    simpa [pagesCur] using hf
+  | cons q qs ih =>
+    intro p c hc hl f hf
+    rw [← hc.1, List.mem_append] at hf
+    simp only [pagesCur, List.mem_append]
+    rcases hf with hf | hf
+    · exact Or.inl hf
+    · right
+      have := ih q p.reported hc.2 (by
+        intro r hr; apply hl r; rw [List.getLast?_cons_cons]; exact hr) f (by simp [hf])
+      simpa [pagesCur] using this
+
+/-- **On the page of its call or on a later one, never before** (C01, footnote bodies): a footnote called on a
+line of page `p` is placed in the footnote area of `p` or of a page after it, and in no footnote area of the pages
+before `p`. -/
+theorem footnote_on_call_page_or_later (d : FDoc) (h : FootWF d) (fuel : Nat) (pages : List FPage)
+    (hp : paginateFoot d fuel = some pages) (pre : List FPage) (p : FPage) (post : List FPage)
+    (hsplit : pages = pre ++ p :: post) :
+    ∀ f ∈ tblFns (callTable d.root) (fragLines p.page.root), f ∈ pagesCur (p :: post) ∧ f ∉ pagesCur pre := by
+  obtain ⟨hchain, hlast⟩ := footnotes_chain d h fuel pages hp
+  have hc := footnotes_conserve d h fuel pages hp
+  rw [← pagesCur_eq] at hc
+  subst hsplit
+  obtain ⟨c', hc'⟩ := chain_suffix _ pre (p :: post) [] hchain
+  have hlast' : ∀ q, (p :: post).getLast? = some q → q.reported = [] := by
+    intro q hq
+    apply hlast q
+    rw [getLast?_append_ne _ _ (by simp)]
+    exact hq
+  intro f hf
+  have hin := chain_placed _ post p c' hc' hlast' f (by simp [hf])
+  refine ⟨hin, ?_⟩
+  have hnd : (pagesCur (pre ++ p :: post)).Nodup := by rw [hc]; exact h.uniqueFns
+  rw [pagesCur_append, List.nodup_append] at hnd
+  intro hpre
+  exact hnd.2.2 f hpre f hin rfl
+
+/-- **Rendered**: the footnote areas of the pages show, in page order, exactly the footnotes of the document in
+call order — whatever the page names of the calling boxes (full strength since repair 8db5909; before it the
+hypothesis "one page name among the footnotes" was necessary). -/
+theorem footnotes_shown (d : FDoc) (h : FootWF d) (fuel : Nat) (pages : List FPage)
     (hp : paginateFoot d fuel = some pages) :
     (pages.map shownFids).flatten = (boxFns d.root).map (fun f => f.fid) := by
   have hc := footnotes_conserve d h fuel pages hp
-  have harea : ∀ p ∈ pages, p.area = areaOut d.area d.pageH p.cur := by
+  have harea : ∀ p ∈ pages, p.area = areaOut (d.areaFor p.page.type.name) d.pageH p.cur := by
     unfold paginateFoot at hp
     exact makeAllPagesF_area d fuel 0 none _ _ _ _ pages hp
-  have hsub : ∀ p ∈ pages, ∀ f ∈ p.cur, f ∈ boxFns d.root := by
-    intro p hp' f hf
-    rw [← hc]
-    simp only [List.mem_flatten, List.mem_map]
-    exact ⟨p.cur, ⟨p, hp', rfl⟩, hf⟩
   rw [← hc, List.map_flatten, List.map_map]
   congr 1
   apply List.map_congr_left
   intro p hp'
   simp only [Function.comp, shownFids, harea p hp']
-  exact areaOut_fids d.area d.pageH p.cur
-    (fun f hf g hg => h1 f (hsub p hp' f hf) g (hsub p hp' g hg))
+  exact areaOut_fids (d.areaFor p.page.type.name) d.pageH p.cur
+
+/-- Every footnote body is rendered exactly once: the rendered ids, over all pages, have no repetition when the
+footnotes of the document have distinct ids. -/
+theorem footnotes_shown_nodup (d : FDoc) (h : FootWF d) (hid : ((boxFns d.root).map (fun f => f.fid)).Nodup)
+    (fuel : Nat) (pages : List FPage) (hp : paginateFoot d fuel = some pages) :
+    ((pages.map shownFids).flatten).Nodup := by
+  rw [footnotes_shown d h fuel pages hp]; exact hid
+
+/-- **C01 on footnote documents, in one statement**: whatever the page height, the `@footnote` styles (unnamed and
+per named page type), the footnote policies and page names — (1) the lines of the pages, concatenated, are the lines
+of the document, each once and in order; (2) the footnote bodies rendered in the footnote areas, concatenated in
+page order, are the footnotes of the document, each once and in call order; (3) each body is rendered on the page
+of its call or on a later page, never on an earlier one. -/
+theorem conservation (d : FDoc) (h : FootWF d) (fuel : Nat) (pages : List FPage)
+    (hp : paginateFoot d fuel = some pages) :
+    (pages.map (fun p => fragLines p.page.root)).flatten = linesFrom d.root.erase none ∧
+    (pages.map shownFids).flatten = (boxFns d.root).map (fun f => f.fid) ∧
+    (∀ pre p post, pages = pre ++ p :: post → ∀ f ∈ tblFns (callTable d.root) (fragLines p.page.root),
+      f ∈ pagesCur (p :: post) ∧ f ∉ pagesCur pre) :=
+  ⟨pages_conserve d h.noFixed h.wellFormed fuel pages hp, footnotes_shown d h fuel pages hp,
+   fun pre p post hs => footnote_on_call_page_or_later d h fuel pages hp pre p post hs⟩
 
 /-! ### non-vacuity -/
 
@@ -190,22 +269,48 @@ structure PageSum where
 def pageSummary (p : FPage) : PageSum :=
   ⟨p.page.type.blank, fragLines p.page.root, p.cur.map (·.fid), p.reported.map (·.fid), shownFids p⟩
 
-example : FootWF exDoc ∧ OnePageName exDoc := by
-  refine ⟨⟨?_, ?_, ?_, ?_, ?_, ?_⟩, ?_⟩
+example : FootWF exDoc := by
+  refine ⟨?_, ?_, ?_, ?_, ?_⟩
   · simp [exDoc, exDocOf, FootBox.erase, eraseList, NoFixedHeight, NoFixedHeightList, exSt]
   · simp [exDoc, exDocOf, FootBox.erase, eraseList, WellFormed, WellFormedList, exSt]
-  · simp [exDoc, exDocOf, NoBlockPolicy, NoBlockPolicyList]
   · simp [exDoc, exDocOf, CallsOk, CallsOkList]
   · simp [exDoc, exDocOf, UniqueParaIds, paraIds, paraIdsList]
   · decide +kernel
-  · unfold OnePageName; decide +kernel
 
 example : (paginateFoot exDoc 20).map (List.map pageSummary) =
     some [⟨false, [(1, 0), (1, 1), (1, 2)], [1], [2], [1]⟩, ⟨false, [(1, 3)], [2], [], [2]⟩,
           ⟨false, [(1, 4)], [3], [], [3]⟩] := by decide +kernel
 
+/-- `footnote_on_call_page_or_later` on `exDoc`: footnote 2 is called on page 1 (line 2) and rendered on page 2. -/
+example : (paginateFoot exDoc 20).map (List.map (fun p =>
+      ((tblFns (callTable exDoc.root) (fragLines p.page.root)).map (·.fid), p.cur.map (·.fid)))) =
+    some [([1, 2], [1]), ([], [2]), ([3], [3])] := by decide +kernel
+
 example : (paginateFoot exDoc2 20).map (List.map pageSummary) =
     some [⟨false, [(1, 0), (1, 1), (1, 2)], [], [1, 2], []⟩, ⟨true, [], [1, 2], [], [1, 2]⟩] := by decide +kernel
+
+/-- Named page types with their own `@footnote` rule: two footnotes are postponed from an unnamed page to the
+pages named `pb`, whose footnote area has `max-height: 15px` (the unnamed rule: `margin-top: 2px`, no max-height). -/
+def exNamed (named : List (String × AreaStyle)) : FDoc :=
+  { exDocOf 40 [.para 1 3 10 exSt [⟨2, 1, 2, 10, .auto⟩, ⟨2, 2, 1, 10, .auto⟩],
+                .para 3 3 10 { exSt with page := "pb" } [⟨0, 3, 1, 10, .auto⟩, ⟨2, 4, 1, 10, .auto⟩]] with
+    area := { exArea with mt := 2 }, named := named }
+
+/-- Per page: its name, lines, footnotes placed / postponed, (top, height) of the footnote area. Without the named
+rule page 2 takes footnotes 1 and 2 (area of 30px under a 2px margin) and one line; with it the area is capped at
+15px, footnote 2 is postponed again and two lines fit; the last page (blank, unnamed) uses the unnamed rule again. -/
+example : (paginateFoot (exNamed []) 20).map (List.map (fun p =>
+      (p.page.type.name, (fragLines p.page.root).length, p.cur.map (·.fid), p.reported.map (·.fid)))) =
+    some [("", 3, [], [1, 2]), ("pb", 1, [1, 2], [3]), ("pb", 2, [3], [4]), ("", 0, [4], [])] ∧
+    (paginateFoot (exNamed []) 20).map (List.map (fun p => p.area.map (fun a => (a.y, a.h)))) =
+    some [none, some (8, 30), some (28, 10), some (28, 10)] ∧
+    (paginateFoot (exNamed [("pb", { exArea with maxH := some 15 })]) 20).map (List.map (fun p =>
+      (p.page.type.name, (fragLines p.page.root).length, p.cur.map (·.fid), p.reported.map (·.fid)))) =
+    some [("", 3, [], [1, 2]), ("pb", 2, [1], [2, 3]), ("pb", 1, [2], [3, 4]), ("", 0, [3, 4], [])] ∧
+    (paginateFoot (exNamed [("pb", { exArea with maxH := some 15 })]) 20).map (List.map (fun p =>
+      p.area.map (fun a => (a.y, a.h)))) =
+    some [none, some (25, 15), some (30, 10), some (18, 20)] := by
+  refine ⟨?_, ?_, ?_, ?_⟩ <;> decide +kernel
 
 /-- `embed_agrees` on a concrete stage-1 document with several pages. -/
 example : (paginate { pageH := 25, rootLtr := true, root := (exDocOf 25 [.para 1 5 10 exSt []]).root.erase } 20).map
